@@ -180,7 +180,7 @@ def work(task):
 # ---------------------------------------------------------------- histories on one counter
 
 H_EMITS = [(logging.WARNING, 'a'), (logging.WARNING, 'b'), (logging.WARNING, None), (35, 'a'), (logging.ERROR, 'a'),
-           (logging.ERROR, None), (logging.INFO, 'a')]
+           (logging.ERROR, None), (logging.INFO, 'a'), (logging.WARNING, 'adapter-untyped')]
 H_EVALS = [[], [[(None, 1)]], [[('general', None)]], [[('a', 1)]], [[('general', 1)], [('b', None)]]]
 H_OPS = [('emit', e) for e in H_EMITS] + [('eval', s) for s in H_EVALS]
 
@@ -202,6 +202,9 @@ def history_case(ops, acc):
             level, typ = arg
             if typ is None:
                 logger.log(level, 'msg')
+            elif typ == 'adapter-untyped':
+                adapter.log(level, 'msg')        # through the typed adapter, without a type: documented default 'general'
+                typ = None
             else:
                 adapter.log(level, 'msg', type=typ)
             if level >= logging.WARNING:
@@ -265,7 +268,7 @@ def ref_maxwarn(value):
 
 def parser_part(acc, max_len):
     script = cli.load_script()
-    letters = ['2', '1', 'a', 'b', ':', '-']
+    letters = ['2', '1', 'a', 'B', ':', '-']      # type names are case-sensitive (one shipped type, DSSP-version, has capitals)
     for length in range(1, max_len + 1):
         for tup in itertools.product(letters, repeat=length):
             text = ''.join(tup)
